@@ -262,9 +262,10 @@ Proof.
     + inversion H2; subst. (split; reflexivity).
 Qed.
 
-Lemma tab_loop_same t : forall fuel b pos one b', tab_loop fuel b t pos one = Ok b' -> same b b'.
+Lemma tab_loop_same : forall fuel b t tw pos one fl r,
+  tab_loop fuel b t tw pos one fl = Ok r -> same b (fst r).
 Proof.
-  induction fuel as [|f IH]; intros b pos one b' H; cbn [tab_loop] in H.
+  induction fuel as [|f IH]; intros b t tw pos one fl r H; cbn [tab_loop] in H.
   - destruct (negb (pos mod 8 =? 0) || negb one); [discriminate H|].
     inversion H; subst. (split; reflexivity).
   - destruct (negb (pos mod 8 =? 0) || negb one);
@@ -381,7 +382,7 @@ Proof.
       bd H b4 H4. apply ws_loop_same in H4.
       bd H b6 H6. apply fwhw_stream in H6. destruct H6 as [H6a H6b].
       inversion H; subst. clear H.
-      assert (S5 : same (set_prew b false) b4).
+      assert (S5 : same b b4).
       { eapply same_trans; [exact H1|]. eapply same_trans; [exact H2|].
         destruct (is_pre m); exact H4. }
       destruct S5 as [S5a S5b].
@@ -431,7 +432,8 @@ Proof.
     + destruct (cp c =? 10).
       { bd H b1 H1. inversion H; subst. apply ffl_same in H1. exact H1. }
       destruct (cp c =? 9).
-      { bd H b1 H1. inversion H; subst. apply tab_loop_same in H1. exact H1. }
+      { bd H r H1. cbv zeta in H. inversion H; subst. apply tab_loop_same in H1.
+        destruct (is_pre m && snd r); exact H1. }
       destruct (cw c) as [cwidth|]; [|inversion H; subst; (split; reflexivity)].
       destruct (wwidth b0 <? tlen_ (wline b0) + wslen b0 + cwidth);
         [|inversion H; subst; (split; reflexivity)].
